@@ -6,6 +6,8 @@ a finite-difference Jacobian of the stacked residuals in tangent coordinates thr
 model, the reference block-diagonal weight expansion and the documented recurrences.
 """
 import numpy as np
+import warnings
+
 import torch
 import pypose as pp
 from torch import nn
@@ -91,7 +93,7 @@ def build(rng, cfg, spec, trace, fail_at=None):
 def config(rng, opt=None):
     opt = opt or ["GN", "LM"][int(rng.integers(2))]
     cfg = {"opt": opt, "kernel": list(KERNELS)[int(rng.integers(len(KERNELS)))] if rng.random() < 0.5 else "none",
-           "corrector": ["FastTriggs", "Triggs"][int(rng.integers(2))], "per_res": bool(rng.integers(2)), "single_corrector": bool(rng.integers(2)),
+           "corrector": ["FastTriggs", "Triggs"][int(rng.integers(2))], "per_res": bool(rng.integers(2)), "single_corrector": bool(rng.integers(2)), "warnings_as_errors": bool(rng.random() < 0.25),
            "vectorize": bool(rng.integers(2)), "weight": rng.random() < 0.5, "weight_at": ["init", "step", "both"][int(rng.integers(3))],
            "input_as": ["tuple", "tuple", "dict", "single"][int(rng.integers(4))]}
     if opt == "GN":
@@ -217,7 +219,12 @@ def check_step(ck, rng, spec, cfg, case_key):
     Jref, r0, spread = optspy.fd_jacobian(model, data, targets_list)
     before = optspy.param_snapshot(model)
     try:
-        ret = opt.step(step_input, target=target, weight=weights if (cfg["weight"] and cfg["weight_at"] in ("step", "both")) else None)
+        # a quarter of the cases run with warnings turned into errors (python -W error): a step neither warns nor behaves differently
+        with warnings.catch_warnings():
+            if cfg.get("warnings_as_errors"):
+                warnings.simplefilter("error")
+                ck.mark("config/warnings-as-errors")
+            ret = opt.step(step_input, target=target, weight=weights if (cfg["weight"] and cfg["weight_at"] in ("step", "both")) else None)
     except Exception as e:  # noqa
         big = [float(e_["x"].abs().max()) for e_ in trace.of("SOLVE") if "x" in e_]
         if big and not (max(big) < 1e3):
@@ -480,7 +487,7 @@ def run(ck):
     for t in templates:
         ck.require("template/" + t)
     ck.require("flags/frozen_after_construction", "flags/unfrozen_after_construction", "model/residual-is-a-parameter",
-               "corrector/one-object-for-several-residuals")
+               "corrector/one-object-for-several-residuals", "config/warnings-as-errors")
     ck.require("update/group_retraction", "update/frozen_seen", "clamp/min_binds", "clamp/max_binds", "system/second_step_after_inplace_weight_update",
                "weight/given_at_init_and_step", "input/dict", "input/single")
     ck.floor("assemble", 30)
